@@ -27,8 +27,9 @@ META = dict(
                'equal hash for duplicate-free clusters (hash_respects_eq); a kernel-checked witness that __eq__ is not geometric when the '
                'transition pair is unmarked and that the marked version separates it (ts_eq_not_geometric_witness, ts_mark_verdict on the '
                'live source); completeness of the neighbour table in a box passing boxOK (mem_neighbours_complete, Cauchy-Schwarz shared '
-               'with C21) and the clique growth lemma. NOT proved: the converse of the identity clause (equal => geometrically the same; '
-               'kept as cluster_eq_iff_translate_perm_full) and the composition through the set-based loops of makeclusters / makeTSclusters / '
+               'with C21) and the clique growth lemma; for plain clusters also the converse (eqv_plain_imp_translate_perm: equal => translate of '
+               'each other up to site order), i.e. the full equivalence. NOT proved: the converse for vacancy / transition clusters '
+               '(full statement kept as cluster_eq_iff_translate_perm_full) and the composition through the set-based loops of makeclusters / makeTSclusters / '
                'makeVacancyClusters; both are tied by the differential run of the exact model (compared through geometric canonical forms) '
                'and by direct oracles on the implementation (geometric equality both ways, validity, completeness against an exact clique '
                'enumeration, closure under the group and reversal, disjointness).',
@@ -41,7 +42,7 @@ META = dict(
                   'OnsagerProofs.C31', 'Generated.C21Facts', 'OnsagerProofs.C21Tie', 'Generated.C31Facts', 'OnsagerProofs.C31Tie'],
     theorems=['Onsager.C31.mk\'_translate', 'Onsager.C31.keyed_translate_perm', 'Onsager.C31.hashWith_perm',
               'Onsager.C31.hash_of_translate_perm', 'Onsager.C31.eqv_map_of_translate_perm', 'Onsager.C31.eqv_of_translate_perm',
-              'Onsager.C31.cluster_eq_of_translate_perm_partial', 'Onsager.C31.hash_respects_eq',
+              'Onsager.C31.cluster_eq_of_translate_perm_partial', 'Onsager.C31.eqv_plain_imp_translate_perm', 'Onsager.C31.hash_respects_eq',
               'Onsager.C31.ts_eq_not_geometric_witness', 'Onsager.C31.mem_neighbours_complete', 'Onsager.C31.clique_growth',
               'Onsager.Geom.boxOK_complete', 'Onsager.Geom.boxB_ok', 'Onsager.C21.expand_closed', 'Onsager.C21.classes_disjoint'],
     tie_theorems=['Onsager.C31.src_form_known', 'Onsager.C31.src_box_verdict', 'Onsager.C31.dual_forms_complete',
